@@ -33,11 +33,13 @@ from dateutil import tz as dtz  # noqa: E402
 from yaql.language import factory  # noqa: E402
 
 ID = 'C20'
-LEAN_MODULES = ['Yaql.Props.C20', 'Yaql.Props.C20Gen']
+LEAN_MODULES = ['Yaql.Props.C20', 'Yaql.Props.C20Cal', 'Yaql.Props.C20Gen']
 REQUIRED_THEOREMS = [
     'Yaql.Props.C20.add_sub', 'Yaql.Props.C20.compare_instants', 'Yaql.Props.C20.utc_same_instant',
     'Yaql.Props.C20.timestamp_roundtrip', 'Yaql.Props.C20.naive_is_utc', 'Yaql.Props.C20.naive_is_utc_fields',
     'Yaql.Props.C20.units', 'Yaql.Props.C20.range_errors',
+    'Yaql.Props.C20Cal.ord2ymd_ymd2ord', 'Yaql.Props.C20Cal.ymd2ord_ord2ymd', 'Yaql.Props.C20Cal.build_fields',
+    'Yaql.Props.C20Cal.date_time_split',
     'Yaql.Props.C20Gen.datetime_params_convert', 'Yaql.Props.C20Gen.modelled_signatures',
 ]
 TRUSTED = ['CPython datetime/timedelta as the carrier of the real values (fixed-offset tzinfo only)',
@@ -1224,8 +1226,8 @@ def run(env, res):
     # a broken proof obligation (a re-typed parameter, a dropped overload) directs more of the budget to the
     # naive-host-value law, where such a change shows
     obligations_broken = bool(env.get('broken'))
-    n_trees = 5000 if tier == 'quick' else 120000
-    n_law = 220 if tier == 'quick' else 5000
+    n_trees = 8000 if tier == 'quick' else 120000
+    n_law = 300 if tier == 'quick' else 5000
     law_weights = dict(roundtrip_s=2, roundtrip_d=2, utc=2, add_sub=2, compare=3, units=1,
                        naive=4 if obligations_broken else 1)
     t_end = time.time() + (70 if tier == 'quick' else 520)
@@ -1289,7 +1291,7 @@ LEVEL_TEXT = ('Lean 4 theorems over a code-shaped model of date_time.py on top o
               'expression trees on the real engine and on the compiled model and comparing exactly, and the laws are '
               'also checked on real results alone and against Python\'s own aware datetime arithmetic.')
 LEVEL_NOTE = ('trusted: Lean kernel; hand-written model Yaql/Model/DateTime.lean (offsets in microseconds, fixed-offset '
-              'zones, calendar transcribed from CPython _pydatetime and validated by the correspondence only); the '
+              'zones, calendar transcribed from CPython _pydatetime - proved to be a bijection dates <-> ordinals in C20Cal); the '
               'float division/rounding steps of the platform are explicit: theorems speak of exact rationals, the '
               'harness compares floats with the correctly rounded rational within 1 ulp and feeds float inputs only '
               'where platform rounding equals exact rounding.  format/parse, now, localtz are not modelled.')
